@@ -161,6 +161,17 @@ func (sp *LockSpec) guarded(field string) bool {
 func freshBase(v ssa.Value) bool {
 	switch x := v.(type) {
 	case *ssa.Alloc:
+		// a value parameter/receiver spilled to a local cell is the caller's
+		// object, not a fresh one
+		if refs := x.Referrers(); refs != nil {
+			for _, r := range *refs {
+				if st, ok := r.(*ssa.Store); ok && st.Addr == x {
+					if _, isParam := st.Val.(*ssa.Parameter); isParam {
+						return false
+					}
+				}
+			}
+		}
 		return true
 	case *ssa.FieldAddr:
 		return freshBase(x.X)
